@@ -2,6 +2,7 @@
   C01 — Forward iteration yields exactly the primes ≥ start, in order.
 -/
 import PsProofs.IterRun
+import PsProofs.Wheel
 import Mathlib.Tactic.NormNum.Prime
 import Mathlib.Tactic.IntervalCases
 
@@ -44,5 +45,87 @@ example : primeSeq 0 0 = 2 ∧ primeSeq 0 1 = 3 ∧ primeSeq 0 2 = 5 := by
   have h5 : nextPrime 4 = 5 := nextPrime_eq_of (by omega) (by norm_num) (by
     intro q h1 h2; interval_cases q; norm_num)
   simp only [primeSeq, h2, h3, h5, and_self]
+
+end Ps.Props
+
+/-! ### the wheel layer of the sieve chain (regenerated tables, all sieving primes, all quotients) -/
+
+namespace Ps.Props
+open Ps Ps.Wheel
+
+/-- **C01 (cross-off tables)** regenerated from EratSmall.cpp, EratMedium.cpp, EratBig.cpp, LookupTables.cpp, Wheel.hpp and
+    bits.hpp on every run and compared by the kernel with their arithmetic specification: all 64
+    single-step rows of EratSmall and of EratMedium, the 8 unrolled loops of EratSmall (= 8 steps),
+    all 384 rows of wheel210, both INIT tables of addSievingPrime (30 + 210 entries), wheelOffsets_
+    and the bit masks.  A single changed entry breaks this theorem. -/
+theorem C01_crossoff_tables :
+    Gen.eratMediumRows = (specRows 30).map (fun r => (r.1, r.2.1, r.2.2.1)) ∧
+    Gen.eratSmallRows = (specRows 30).map (fun r => (r.1, r.2.1, r.2.2.1)) ∧
+    Gen.wheel210 = specRows 210 ∧
+    Gen.wheel30Init = (List.range 30).map (specInit 30) ∧
+    Gen.wheel210Init = (List.range 210).map (specInit 210) ∧
+    (∀ r, r < 8 → Gen.wheelOffsetUnits.getD (primeRes.getD r 0) 0 = r) ∧
+    Gen.bitMasks = (List.range 8).map (fun k => 255 - 2 ^ k) ∧
+    Gen.eratSmallUnrolled.map (fun u => u.2.2.2.2.2) = ((List.range 8).map unrolledSpec).map (fun u => u.2.2.2.2.2) ∧
+    Gen.eratBigStepShape = true ∧ Gen.multipleIndexBits = 23 :=
+  ⟨eratMediumRows_spec, eratSmallRows_spec, wheel210_spec, wheel30Init_spec, wheel210Init_spec, wheelOffsets_spec,
+   bitMasks_spec, eratSmallUnrolled_spec.2, rfl, rfl⟩
+
+/-- **C01 (one cross-off step)** for EVERY sieving prime p = 30·sp + pr and EVERY quotient q: if the stored state
+    denotes the multiple p·q (at byte idx, bit b of the segment starting at L), then one step of
+    EratMedium / EratSmall on the regenerated rows clears exactly bit b and the new state denotes
+    p·q' where q' > q is the NEXT quotient coprime to 30 — no admissible multiple is skipped, no
+    inadmissible one is visited.  The same holds for EratBig's wheel210 step modulo 210. -/
+theorem C01_crossoff_step (L sp idx w q : Nat) :
+    (w < 64 → Denotes 30 L ⟨sp, idx, w⟩ q →
+      (step30 Gen.eratMediumRows ⟨sp, idx, w⟩).1 = (specRow 30 (w / 8) (w % 8)).1 ∧
+      step30 Gen.eratSmallRows ⟨sp, idx, w⟩ = step30 Gen.eratMediumRows ⟨sp, idx, w⟩ ∧
+      Denotes 30 L (step30 Gen.eratMediumRows ⟨sp, idx, w⟩).2 (q + (specRow 30 (w / 8) (w % 8)).2.1) ∧
+      0 < (specRow 30 (w / 8) (w % 8)).2.1 ∧
+      (∀ d, 0 < d → d < (specRow 30 (w / 8) (w % 8)).2.1 → Nat.gcd (q + d) 30 ≠ 1)) ∧
+    (w < 384 → Denotes 210 L ⟨sp, idx, w⟩ q →
+      (step210 ⟨sp, idx, w⟩).1 = (specRow 210 (w / 48) (w % 48)).1 ∧
+      Denotes 210 L (step210 ⟨sp, idx, w⟩).2 (q + (specRow 210 (w / 48) (w % 48)).2.1) ∧
+      0 < (specRow 210 (w / 48) (w % 48)).2.1 ∧
+      (∀ d, 0 < d → d < (specRow 210 (w / 48) (w % 48)).2.1 → Nat.gcd (q + d) 210 ≠ 1)) := by
+  constructor
+  · intro hw h
+    have hs := step_sound30 L ⟨sp, idx, w⟩ q h
+    rw [step30_small_eq w hw, step30_medium_eq w hw]
+    exact ⟨rfl, rfl, hs.1, hs.2.2.1, hs.2.1⟩
+  · intro hw h
+    have hs := step_sound210 L ⟨sp, idx, w⟩ q h
+    rw [step210_eq w hw]
+    exact ⟨rfl, hs.1, hs.2.2.1, hs.2.1⟩
+
+/-- **C01 (walk)** n steps from a state denoting p·q₀ visit, in increasing order and without omission, exactly the
+    quotients ≥ q₀ coprime to the wheel's modulus -/
+theorem C01_crossoff_walk_exact (L n : Nat) (s : SP) (q : Nat) :
+    (Denotes 30 L s q → Denotes 30 L (walk 30 n s q).1 (walk 30 n s q).2 ∧ q ≤ (walk 30 n s q).2 ∧
+      (∀ x, q ≤ x → x < (walk 30 n s q).2 → Nat.gcd x 30 = 1 → ∃ j, j < n ∧ (walk 30 j s q).2 = x)) ∧
+    (Denotes 210 L s q → Denotes 210 L (walk 210 n s q).1 (walk 210 n s q).2 ∧ q ≤ (walk 210 n s q).2 ∧
+      (∀ x, q ≤ x → x < (walk 210 n s q).2 → Nat.gcd x 210 = 1 → ∃ j, j < n ∧ (walk 210 j s q).2 = x)) :=
+  ⟨walk_exact30 L n s q, walk_exact210 L n s q⟩
+
+/-- **C01 (first multiple)** Wheel::addSievingPrime on the regenerated INIT tables, products below 2^64: the prime
+    is stored with a state denoting p·q for the LEAST q ≥ max(p, ⌊(L+6)/p⌋ + 1) coprime to the
+    modulus (so nothing between the segment start and that multiple is missed), and p·q ≤ stop -/
+theorem C01_first_multiple (stop p L : Nat) (hp : Nat.gcd (p % 30) 30 = 1) (hp0 : 0 < p) (hL : L % 30 = 0)
+    (hnw : L + 6 < U64) (hnw2 : p * (max p ((L + 6) / p + 1) + 210) < U64) (hstop : stop < U64) (s : SP) :
+    (addSievingPrime 30 8 Gen.wheel30Init stop p L = some s →
+      ∃ q, Denotes 30 L s q ∧ max p ((L + 6) / p + 1) ≤ q ∧ p * q ≤ stop ∧
+        (∀ x, max p ((L + 6) / p + 1) ≤ x → x < q → Nat.gcd x 30 ≠ 1) ∧ s.sp = p / 30) ∧
+    (addSievingPrime 210 48 Gen.wheel210Init stop p L = some s →
+      ∃ q, Denotes 210 L s q ∧ max p ((L + 6) / p + 1) ≤ q ∧ p * q ≤ stop ∧
+        (∀ x, max p ((L + 6) / p + 1) ≤ x → x < q → Nat.gcd x 210 ≠ 1) ∧ s.sp = p / 30) := by
+  constructor
+  · intro h
+    exact addSievingPrime30_denotes stop p L hp hp0 hL hnw
+      (Nat.lt_of_le_of_lt (Nat.mul_le_mul_left p (by omega)) hnw2) hstop s h
+  · exact addSievingPrime210_denotes stop p L hp hp0 hL hnw hnw2 hstop s
+
+/-- non-vacuity: the prime 7 at segment 0 starts at 7·7 = 49 = 0 + 30·1 + 19 (bit 4), wheel index 1 -/
+example : addSievingPrime 30 8 Gen.wheel30Init 1000 7 0 = some ⟨0, 1, 1⟩ ∧
+    (step30 Gen.eratMediumRows ⟨0, 1, 1⟩) = (4, ⟨0, 2, 2⟩) := by decide +kernel
 
 end Ps.Props
